@@ -88,7 +88,11 @@ def ev0(op, **kw):
     return e
 
 
-def run_reader(stream, validate=1, parsed=True, quit=1, handler=True, labelmsm=1, max_calls=100000, wrap=True, use_iter=False):
+class HandlerEscalation(Exception):
+    """raised by the scripted user error handler (a user exception, not one of the library's)"""
+
+
+def run_reader(stream, validate=1, parsed=True, quit=1, handler=True, labelmsm=1, max_calls=100000, wrap=True, use_iter=False, hraise=None):
     """
     Drive RTCMReader over `stream` until end of data. Returns (events, results)
     results: list of (raw, parsed_msg) delivered.
@@ -106,6 +110,13 @@ def run_reader(stream, validate=1, parsed=True, quit=1, handler=True, labelmsm=1
             log[-1]["_hlib"] = isinstance(err, decode_rec.lib_classes())
         else:
             log.append({"op": "orphan-handler"})
+        if hraise and handler and (len(herrs) - 1) in hraise:
+            # the user's handler escalates: alternately with one of the library's classes and a foreign one
+            if len(herrs) % 2:
+                from pyrtcm.exceptions import RTCMStreamError
+
+                raise RTCMStreamError("error budget exhausted (raised by the user's handler)")
+            raise HandlerEscalation("raised by the user's handler")
 
     # without a user handler, log mode reports through the module logger: observe it the same way
     import logging
